@@ -99,7 +99,7 @@ def cut_function(src, sig_regex, with_template=True, occurrence=1):
             if not mt:
                 break
             start = mt.start()
-    po = src.index('(', m.end() - 1)
+    po = src.index('(', m.start()) if '(' in m.group(0) else src.index('(', m.end() - 1)
     pc = match_close(src, po)
     # between ')' and '{' only qualifiers / initialiser lists are allowed
     bo = pc + 1
@@ -199,6 +199,11 @@ class Rewriter:
     def run(self, text, cname=None):
         s = text
         T = '|'.join(re.escape(t) for t in sorted(self.scalars, key=len, reverse=True))
+        # R17 preprocessor conditionals of the cut, evaluated with the macros of this build's feat_config.hpp
+        if re.search(r'^\s*#\s*(if|ifdef|ifndef)\b', s, flags=re.M):
+            s2 = eval_conditionals(s, build_macros())
+            self._hit('R17', len(re.findall(r'^\s*#\s*(?:if|ifdef|ifndef)\b', s, flags=re.M)))
+            s = s2
         # R14 drop lines
         for pat in self.drop:
             s = self._sub('R14', r'^[ \t]*' + pat + r'[^\n]*\n', '\n', s, flags=re.M)
@@ -317,6 +322,56 @@ class Rewriter:
         return s
 
 
+_BM = None
+
+
+def build_macros():
+    global _BM
+    if _BM is None:
+        import os
+        _BM = {}
+        repo = os.environ.get('FEAT_REPO', '/repo')
+        for cand in (os.path.join(repo, '_build', 'feat_config.hpp'),):
+            if os.path.exists(cand):
+                for m in re.finditer(r'^#define\s+(\w+)(?:[ \t]+(.*))?$', open(cand).read(), flags=re.M):
+                    _BM[m.group(1)] = (m.group(2) or '1').strip()
+    return _BM
+
+
+def eval_conditionals(text, macros):
+    out, stack = [], []
+    for line in text.split('\n'):
+        m = re.match(r'\s*#\s*(ifdef|ifndef|if|elif|else|endif)\b\s*(.*)$', line)
+        if m:
+            kw, arg = m.group(1), m.group(2).strip()
+            if kw == 'ifdef':
+                stack.append([arg in macros, arg in macros])
+            elif kw == 'ifndef':
+                stack.append([arg not in macros, arg not in macros])
+            elif kw in ('if', 'elif'):
+                e = re.sub(r'defined\s*\(?\s*(\w+)\s*\)?', lambda mm: '1' if mm.group(1) in macros else '0', arg)
+                e = re.sub(r'\b[A-Za-z_]\w*\b', lambda mm: macros.get(mm.group(0), '0') if re.fullmatch(r'\d+', macros.get(mm.group(0), '0')) else '0', e)
+                e = e.replace('&&', ' and ').replace('||', ' or ')
+                e = re.sub(r'!(?!=)', ' not ', e)
+                try:
+                    v = bool(eval(e))
+                except Exception:
+                    raise ExtractError('cannot evaluate preprocessor condition: ' + arg)
+                if kw == 'if':
+                    stack.append([v, v])
+                else:
+                    stack[-1][0] = (not stack[-1][1]) and v
+                    stack[-1][1] = stack[-1][1] or v
+            elif kw == 'else':
+                stack[-1][0] = not stack[-1][1]
+            elif kw == 'endif':
+                stack.pop()
+            out.append('')
+            continue
+        out.append(line if all(f[0] for f in stack) else '')
+    return '\n'.join(out)
+
+
 def split_args(a):
     """split at top-level commas (angle brackets are only tracked after an identifier)."""
     out, cur, depth, adepth = [], [], 0, 0
@@ -363,6 +418,9 @@ def find_loops(s):
             e = match_close(s, i, '{', '}')
             block(i + 1, e, prefix, counter)
             return e + 1
+        ml = re.match(r'(case\b[^:;{}]*|default\s*):(?!:)', s[i:])
+        if ml:
+            return stmt(i + ml.end(), prefix, counter)
         m = re.match(r'(for|while|do|if|else|switch)\b', s[i:])
         if m:
             kw = m.group(1)
